@@ -478,8 +478,8 @@ func randLayers(c *Ctx, n int) []relaySpec {
 	out := []relaySpec{}
 	for i := 0; i < n; i++ {
 		ls := relaySpec{mtype: dhcpv6.MessageTypeRelayForward, link: net.IP(r.Bytes(16)), peer: net.IP(r.Bytes(16)), hop: uint8(r.Intn(8))}
-		if i > 0 && r.Pct(10) {
-			ls.mtype = dhcpv6.MessageTypeRelayReply
+		if (i > 0 && r.Pct(10)) || (i == 0 && r.Pct(6)) {
+			ls.mtype = dhcpv6.MessageTypeRelayReply // (also as the outermost layer: a Relay-Reply sent to the server)
 		}
 		if r.Pct(60) {
 			ls.ifaceID = r.Bytes(1 + r.Intn(6))
